@@ -151,6 +151,7 @@ def run(L, rep, tier, seed):
     ]
     worker_contract(L, rep, tier, seed)
     drop_effect(L, rep, tier, seed)
+    dispatch_wakes_one(L, rep, tier, seed)
     if tier == 'quick':
         return
     S = Session(L, rep, seed)
@@ -209,3 +210,26 @@ def drop_effect(L, rep, tier, seed):
     S.run('drop/effect', h, witnesses=['dropped'], bound='the Drop implementation of TaskPool, sequential')
     for (label, sc, st, nm) in S.last_violations[:1]:
         rep.violation(Violation('C20', None, 'drop/effect/%s violated: %s' % (label, sc), sc, 'drop/effect/' + label))
+
+
+def dispatch_wakes_one(L, rep, tier, seed):
+    """a queued connection wakes at most one idle worker: waking all of them would restart every surplus worker's idle period on
+    each arrival, so that workers beyond the minimum never retire under light traffic (BMC on the burst-3 pool model of C08)"""
+    from props.c08 import pool_queries
+    S = Session(L, rep, seed)
+    name, n, ndyn, K, me = 'burst3-from-idle', 3, 1, 9, 12
+    try:
+        enc0, hooks, st, pins, sched = startup_state(S, n, ndyn, me)
+        enc = bmc.Encoder(enc0.threads, enc0.objects, K, cap=enc0.cap, spurious=True, hooks=hooks, symmetry=enc0.symmetry)
+        enc.initial_override = st
+        enc.tasks = enc0.tasks
+        enc.use_clock = False
+        enc.build()
+    except Unsupported as e:
+        rep.inconc('%s: unsupported construct: %s' % (name, e))
+        return
+    rep.functions.update(enc0.encoded)
+    qs = [(a, b, list(c) + pins) for (a, b, c) in pool_queries(enc, 'kf_enqueue_without_idle_waiter', ('at-most-one-idle', 'witness'))]
+    res = bmc.solve_many(enc, qs, timeout_ms=200000, seed=seed, jobs=2)
+    rep.bounds[name] = {'dispatches': n, 'K_steps_after_startup': K}
+    report_results(rep, 'C20', name, res, {}, [name, n, ndyn, K])
